@@ -346,6 +346,10 @@ var uniList = map[string]func(x, y *big.Int) string{
 	"type": func(x, y *big.Int) string { return "s:list" },
 }
 
+// list-form built-ins whose result depends only on the elements: also run on other kinds of iterable
+var iterForms = map[string]bool{"list": true, "tuple": true, "set": true, "sorted": true, "reversed": true, "zip": true,
+	"any": true, "all": true, "min": true, "max": true, "enumerate": true, "bytes": true}
+
 // built-ins that must not be called blindly (output, abort) or that take no numbers at all by design
 var uniSkip = map[string]bool{"print": true, "fail": true}
 
@@ -401,6 +405,14 @@ func universeCases(ints []*big.Int, partners []*big.Int) {
 				if okL && hasL {
 					w := l(x, y)
 					emitB("builtin", name+"([a0, a1])", w, false, fn, mkList(x, y))
+					if iterForms[name] {
+						// the same elements through a tuple, an Iterable without length and a host Sequence
+						vals := []starlark.Value{starlark.MakeBigInt(x), starlark.MakeBigInt(y)}
+						lst := "[" + x.String() + "," + y.String() + "]"
+						emitB("builtin", name+"(tuple [a0, a1])", w, false, fn, operand{starlark.Tuple(vals), lst})
+						emitB("builtin", name+"(hostIter [a0, a1])", w, false, fn, operand{&hostIter{vals}, lst})
+						emitB("builtin", name+"(hostSeq [a0, a1])", w, false, fn, operand{&hostSeq{hostIter{vals}}, lst})
+					}
 				}
 			}
 		}
@@ -1345,6 +1357,110 @@ func enumerateCase(start *big.Int, n int) {
 	emit("enum", t, "["+strings.Join(parts, ",")+"]", !ok, mkInt(start))
 }
 
+// ---- iterables of every kind: built-ins that walk an iterable have separate code
+// paths for sequences of known length and for iterables without one
+
+// hostIter is an application-defined Iterable that is not a Sequence (no Len).
+type hostIter struct{ elems []starlark.Value }
+
+func (h *hostIter) String() string        { return "hostIter" }
+func (h *hostIter) Type() string          { return "hostIter" }
+func (h *hostIter) Freeze()               {}
+func (h *hostIter) Truth() starlark.Bool  { return true }
+func (h *hostIter) Hash() (uint32, error) { return 0, fmt.Errorf("unhashable") }
+func (h *hostIter) Iterate() starlark.Iterator {
+	return &hostIterator{h.elems, 0}
+}
+
+type hostIterator struct {
+	elems []starlark.Value
+	i     int
+}
+
+func (it *hostIterator) Next(p *starlark.Value) bool {
+	if it.i < len(it.elems) {
+		*p = it.elems[it.i]
+		it.i++
+		return true
+	}
+	return false
+}
+func (it *hostIterator) Done() {}
+
+// hostSeq is an application-defined Sequence (known length).
+type hostSeq struct{ hostIter }
+
+func (h *hostSeq) Type() string { return "hostSeq" }
+func (h *hostSeq) Len() int     { return len(h.elems) }
+
+func evalValue(src string) starlark.Value {
+	v, err := starlark.EvalOptions(&syntax.FileOptions{Set: true}, thread, "it.star", src, starlark.StringDict{"set": starlark.Universe["set"]})
+	if err != nil {
+		fmt.Fprintln(os.Stderr, "iterable source:", src, err)
+		os.Exit(2)
+	}
+	return v
+}
+
+// three-element iterables of every kind reachable from the language and the Go API
+func iterables3() []struct {
+	name string
+	v    starlark.Value
+} {
+	abc := []starlark.Value{starlark.String("a"), starlark.String("b"), starlark.String("c")}
+	return []struct {
+		name string
+		v    starlark.Value
+	}{
+		{"list", evalValue("['a', 'b', 'c']")},
+		{"tuple", evalValue("('a', 'b', 'c')")},
+		{"dict", evalValue("{'a': 1, 'b': 2, 'c': 3}")},
+		{"set", evalValue("set(['a', 'b', 'c'])")},
+		{"range", evalValue("range(3)")},
+		{"str.elems", evalValue("'abc'.elems()")},
+		{"str.elem_ords", evalValue("'abc'.elem_ords()")},
+		{"str.codepoints", evalValue("'abc'.codepoints()")},
+		{"str.codepoint_ords", evalValue("'abc'.codepoint_ords()")},
+		{"bytes.elems", evalValue("b'abc'.elems()")},
+		{"hostIter", &hostIter{abc}},
+		{"hostSeq", &hostSeq{hostIter{abc}}},
+	}
+}
+
+// enumerate(iterable, start) for every kind of iterable: the indices are start, start+1, start+2
+func enumerateKinds(start *big.Int) {
+	fn := starlark.Universe["enumerate"]
+	for _, it := range iterables3() {
+		op := "enumerate(" + it.name + ":3, a0)"
+		if trace {
+			hx.Emit(Case{K: "pre", Op: op, A: []string{start.String()}, R: "enum"})
+			hx.Flush()
+		}
+		r := func() (res string) {
+			defer func() {
+				if e := recover(); e != nil {
+					res = "panic:" + fmt.Sprint(e)
+				}
+			}()
+			v, err := starlark.Call(thread, fn, starlark.Tuple{it.v, starlark.MakeBigInt(start)}, nil)
+			if err != nil {
+				return "err"
+			}
+			l, ok := v.(*starlark.List)
+			if !ok {
+				return "other:" + v.Type()
+			}
+			parts := []string{}
+			for i := 0; i < l.Len(); i++ {
+				parts = append(parts, encValue(l.Index(i).(starlark.Tuple)[0]))
+			}
+			return "[" + strings.Join(parts, ",") + "]"
+		}()
+		counts["enum"]++
+		hx.Emit(Case{K: "enum", Op: op, A: []string{start.String()}, R: r, W: encInts(start, add(start, 1), add(start, 2)), E: !inI64(start)})
+	}
+}
+
 func repeatCases(n *big.Int) {
 	// len(s * n): exact or fails; never a wrong length
 	w := "0"
@@ -1566,6 +1682,11 @@ func main() {
 		for n := 0; n <= 4; n++ {
 			enumerateCase(s, n)
 			enumerateCase(add(s, -1), n)
+			if n == 3 {
+				enumerateKinds(s)
+				enumerateKinds(add(s, -1))
+				enumerateKinds(add(s, -2))
+			}
 		}
 		repeatCases(s)
 		repeatCases(neg(s))
